@@ -35,6 +35,29 @@ def harness(req, timeout=1800):
         os.unlink(path)
 
 
+def bounded(module, prop, tier, seed, repo, case=None, timeout=3600):
+    env = dict(os.environ)
+    env['PYTHONPATH'] = HERE
+    env.setdefault('OMP_NUM_THREADS', '1')
+    cmd = [VENV_PY, '-m', module, prop, tier, str(seed), repo]
+    path = None
+    try:
+        if case is not None:
+            fd, path = tempfile.mkstemp(prefix='vfcase-', suffix='.json', dir='/var/tmp')
+            os.close(fd)
+            json.dump(case, open(path, 'w'))
+            cmd.append(path)
+        p = subprocess.run(cmd, cwd=HERE, capture_output=True, text=True, timeout=timeout, env=env)
+        try:
+            return json.loads(p.stdout)
+        except Exception:
+            return dict(errors=['bounded harness output not JSON: %s | %s' % (p.stdout[-300:], p.stderr[-1500:])], failures=[],
+                        evaluated=0, ok=0)
+    finally:
+        if path:
+            os.unlink(path)
+
+
 def load_known(pid):
     path = os.path.join(HERE, 'known_findings.jsonl')
     out = []
@@ -187,6 +210,18 @@ def run_property(pid, tier, seed, repo='/repo', only_deductive=False, timeout=No
         for fl in res.get('failures', [])[:1]:
             violations.append(dict(function=f['key'], detail=fl['detail'], args=fl['args'], source='run-time contract check',
                                    contracts=P['contracts']))
+    # bounded stand-ins (real classes under the simulated MPI); labelled, never counted as proved
+    bounded_runs = []
+    for b in P.get('bounded', []) if not only_deductive else []:
+        res = bounded(b['module'], b['prop'], tier, seed, repo)
+        bounded_runs.append(dict(module=b['module'], prop=b['prop'], evaluated=res.get('evaluated', 0), ok=res.get('ok', 0),
+                                 failures=len(res.get('failures', [])), samples=res.get('samples', [])[:4], bound=b.get('bound', ''),
+                                 wall_s=res.get('wall_s')))
+        if res.get('errors'):
+            engine_errors.append('bounded harness %s error: %s' % (b['module'], res['errors'][0][-600:]))
+        for fl in res.get('failures', [])[:2]:
+            violations.append(dict(function=b['module'] + ':' + b['prop'], detail=fl.get('detail', ''), args=fl.get('case', fl),
+                                   source='bounded stand-in (simulated MPI)', contracts=P['contracts'], bounded=b))
     # refuted obligations: replay the counter-model on the real code
     seen_fun = set(v['function'] for v in violations)
     for ob in bad:
@@ -235,7 +270,7 @@ def run_property(pid, tier, seed, repo='/repo', only_deductive=False, timeout=No
         nviol += 1
         path = write_replay('v%d' % i, dict(property=pid, function=v['function'], failed=v['detail'], source=v['source'],
                                             args=v.get('args'), solver_output=v.get('solver_output'),
-                                            contracts=v['contracts'],
+                                            contracts=v['contracts'], bounded=v.get('bounded'),
                                             replay_cmd='./check %s --replay replay/%s-v%d.json' % (pid, pid, i)))
         tail = '' if v.get('args') is not None else ' no-failing-input-found'
         lines.append('VIOLATION property=%s replay=%s function=%s obligation=%s%s' % (
@@ -247,6 +282,8 @@ def run_property(pid, tier, seed, repo='/repo', only_deductive=False, timeout=No
     for e in engine_errors:
         lines.append('ENGINE: %s' % e)
     level = P['level'] if not bounded_only and not undecided else 'other'
+    if summ['obligations'] == 0:
+        level = 'other'
     samples = []
     for o in ctx.obligations[:400]:
         if o.kind in ('post', 'loop_inv_step') and len(samples) < 6:
@@ -262,9 +299,9 @@ def run_property(pid, tier, seed, repo='/repo', only_deductive=False, timeout=No
                                        canary_refuted=r.get('canary_refuted')) for r in fun_info],
         samples=samples,
         bounded=dict(kind='run-time reading of the same contracts on the real functions (never counted as proved)',
-                     runs=rt, bound='random inputs from vf/rt/gens.py, seed %d' % seed),
-        evaluations=sum(r['evaluated'] for r in rt) + summ['obligations'],
-        distinct_nontrivial=sum(r['ok'] + r['raised_ok'] for r in rt),
+                     runs=rt, bound='random inputs from vf/rt/gens.py, seed %d' % seed, standins=bounded_runs),
+        evaluations=sum(r['evaluated'] for r in rt) + sum(b['evaluated'] for b in bounded_runs) + summ['obligations'],
+        distinct_nontrivial=sum(r['ok'] + r['raised_ok'] for r in rt) + sum(b['ok'] for b in bounded_runs),
         rule='run-time tier: inputs drawn by the generator of each function that satisfy its precondition',
         explanation='deductive tier: %d/%d obligations discharged over %d functions; run-time tier: %d evaluations'
                     % (summ['discharged'], summ['obligations'], len(fun_info), sum(r['evaluated'] for r in rt)),
@@ -286,12 +323,20 @@ def run_property(pid, tier, seed, repo='/repo', only_deductive=False, timeout=No
             print(l)
         print('%s tier=%s: %d obligations, %d discharged, %d refuted, %d undecided; run-time evaluations %d; '
               'violations %d; %.1fs' % (pid, tier, summ['obligations'], summ['discharged'], summ['refuted'],
-                                        summ['undecided'], sum(r['evaluated'] for r in rt), nviol, time.time() - t0))
+                                        summ['undecided'], sum(r['evaluated'] for r in rt) + sum(b['evaluated'] for b in bounded_runs), nviol, time.time() - t0))
     return code
 
 
 def replay(pid, path, repo='/repo'):
     d = json.load(open(path))
+    if d.get('bounded'):
+        b = d['bounded']
+        res = bounded(b['module'], b['prop'], 'quick', 0, repo, case=d['args'])
+        if res.get('failures'):
+            print('REPRODUCED: %s' % res['failures'][0].get('detail'))
+            return 1
+        print('not reproduced: %s' % json.dumps(res)[:500])
+        return 0
     if d.get('args') is None:
         print('replay file carries no concrete input; failed obligation: %s' % d.get('failed'))
         print((d.get('solver_output') or '')[:3000])
